@@ -28,7 +28,14 @@ import (
 	"verifharness/world"
 )
 
-func TestMain(m *testing.M) { world.Main(m) }
+// VERIF_TZ_OFFSET_MIN moves the process's local time zone away from UTC (before anything runs): a
+// heartbeat's timestamp is the current time wherever the process lives.
+func TestMain(m *testing.M) {
+	if off := world.EnvInt("VERIF_TZ_OFFSET_MIN", 0); off != 0 {
+		time.Local = time.FixedZone(fmt.Sprintf("verif%+d", off), off*60)
+	}
+	world.Main(m)
+}
 
 const fnHeartbeat = model.FunctionTypeDeviceDiagnosisHeartbeatData
 
